@@ -536,8 +536,8 @@ def b_rigid(case, ctx):
         check(bool(got), "C19.rigid|is_rigid|rejects_rigid", lambda: f"M={M.tolist()}")
         check(not tf.is_rigid(M[:3, :3]), "C19.rigid|is_rigid|accepts_3x3", "documented: (4,4) only")
     elif kind in ("stretch", "nonrigid"):
-        # deviation of L L^T from I is at least 1e-4, four orders beyond the default epsilon=1e-8
-        harness(dev >= 1e-4, f"non-rigid generator produced dev={dev}")
+        # deviation of L L^T from I is at least 1e-6, two orders beyond the default epsilon=1e-8
+        harness(dev >= 1e-6, f"non-rigid generator produced dev={dev}")
         check(not bool(got), f"C19.rigid|is_rigid|accepts_nonrigid|{case.get('dir', case.get('cls', ''))}", lambda: f"max|L L^T - I| = {dev:.3g} but is_rigid -> True; M={M.tolist()}")
     elif kind == "lastrow":
         check(not bool(got), "C19.rigid|is_rigid|accepts_bad_last_row", lambda: f"last row {M[3].tolist()} but is_rigid -> True")
@@ -824,7 +824,7 @@ def rigid_case(draw):
     if k == 1:
         m = draw(gm.matrix(classes=["similarity", "anisotropic", "shear", "general_affine", "neg_uniform"]))
         L = np.array(m["M"])[:3, :3]
-        if np.abs(L @ L.T - np.eye(3)).max() < 1e-4:
+        if np.abs(L @ L.T - np.eye(3)).max() < 1e-6:
             return {"kind": "rigid", "M": np.eye(4).tolist()}
         return {"kind": "nonrigid", "cls": m["cls"], "M": m["M"]}
     if k == 2:
@@ -942,12 +942,12 @@ def euler_case(draw):
     return {"axes": draw(st.sampled_from(ref.AXES24)), "a": [draw(angle(-4 * PI, 4 * PI)) for _ in range(3)]}
 
 
-@subcheck("C19", "euler_hyp", shards={"quick": 2, "thorough": 8})
+@subcheck("C19", "euler_hyp", shards={"quick": 4, "thorough": 8})
 def s_euler_hyp(ctx):
     ctx.given("C19.euler", euler_case(), n={"quick": 4000, "thorough": 200000})
 
 
-@subcheck("C19", "euler_quat_hyp", shards={"quick": 2, "thorough": 8})
+@subcheck("C19", "euler_quat_hyp", shards={"quick": 4, "thorough": 8})
 def s_euler_quat_hyp(ctx):
     ctx.given("C19.euler_quat", euler_case(), n={"quick": 4000, "thorough": 200000})
 
@@ -960,19 +960,19 @@ def _axis_angle_edge():
                 yield {"angle": t, "axis": [float(x) for x in ax], "point": pt}
 
 
-@subcheck("C19", "axis_angle", shards={"quick": 2, "thorough": 8})
+@subcheck("C19", "axis_angle", shards={"quick": 4, "thorough": 8})
 def s_axis_angle(ctx):
     ctx.enumerate("C19.axis_angle", _axis_angle_edge(), label="13_axes_x_31_special_angles_x_point")
     ctx.given("C19.axis_angle", axis_angle_case(), n={"quick": 4000, "thorough": 150000})
 
 
-@subcheck("C19", "quat_matrix", shards={"quick": 2, "thorough": 8})
+@subcheck("C19", "quat_matrix", shards={"quick": 4, "thorough": 8})
 def s_quat_matrix(ctx):
     ctx.enumerate("C19.quat_matrix", ({"q": ref.unit(q).tolist()} for q in QGRID), label="quaternion_grid_{0,+-1,+-1.001}^4")
     ctx.given("C19.quat_matrix", unit_quat().map(lambda q: {"q": q}), n={"quick": 3000, "thorough": 150000})
 
 
-@subcheck("C19", "quat_algebra", shards={"quick": 2, "thorough": 8})
+@subcheck("C19", "quat_algebra", shards={"quick": 4, "thorough": 8})
 def s_quat_algebra(ctx):
     ctx.given("C19.quat_algebra", quat_pair_case(), n={"quick": 3000, "thorough": 100000})
 
@@ -987,7 +987,7 @@ def _slerp_edge():
                         yield {"q": [float(x) for x in q], "p": [sg * float(x) for x in p], "t": t, "shortest": sh, "s": 1.0}
 
 
-@subcheck("C19", "slerp", shards={"quick": 2, "thorough": 8})
+@subcheck("C19", "slerp", shards={"quick": 4, "thorough": 8})
 def s_slerp(ctx):
     ctx.enumerate("C19.slerp", _slerp_edge(), label="slerp_6x6_quaternions_x_sign_x_4_fractions_x_shortestpath")
     ctx.given("C19.slerp", quat_pair_case(), n={"quick": 4000, "thorough": 150000})
@@ -1001,7 +1001,7 @@ def _trs_edge():
                     yield {"scale": sc, "shear": sh, "angles": [ai, aj, ak], "translate": [1.0, 2.0, 3.0]}
 
 
-@subcheck("C19", "trs", shards={"quick": 2, "thorough": 8})
+@subcheck("C19", "trs", shards={"quick": 4, "thorough": 8})
 def s_trs(ctx):
     ctx.enumerate("C19.trs", _trs_edge(), label="trs_gimbal_x_scale_x_shear_edge_grid")
     ctx.given("C19.trs", trs_case(), n={"quick": 4000, "thorough": 150000})
@@ -1022,7 +1022,7 @@ def _points_edge():
                         yield {"dim": dim, "cls": "edge_identity", "M": M.tolist(), "P": P, "translate": tr}
 
 
-@subcheck("C19", "points", shards={"quick": 2, "thorough": 8})
+@subcheck("C19", "points", shards={"quick": 4, "thorough": 8})
 def s_points(ctx):
     ctx.enumerate("C19.points", _points_edge(), label="identity_shortcut_edge_grid")
     ctx.given("C19.points", points_case(), n={"quick": 5000, "thorough": 200000})
@@ -1036,7 +1036,7 @@ def _scale_translate_cases():
             yield {"scale": s, "translate": t}
 
 
-@subcheck("C19", "planar", shards={"quick": 1, "thorough": 4})
+@subcheck("C19", "planar", shards={"quick": 2, "thorough": 4})
 def s_planar(ctx):
     ctx.given("C19.planar", planar_case(), n={"quick": 2500, "thorough": 80000})
     ctx.given("C19.around", around_case(), n={"quick": 2000, "thorough": 60000})
@@ -1048,12 +1048,12 @@ def s_scale_translate(ctx):
     ctx.enumerate("C19.scale_translate", _scale_translate_cases(), label="scale_and_translate_argument_forms")
 
 
-@subcheck("C19", "rigid", shards={"quick": 1, "thorough": 4})
+@subcheck("C19", "rigid", shards={"quick": 2, "thorough": 4})
 def s_rigid(ctx):
     ctx.given("C19.rigid", rigid_case(), n={"quick": 3000, "thorough": 100000})
 
 
-@subcheck("C19", "fix_rigid", shards={"quick": 1, "thorough": 4})
+@subcheck("C19", "fix_rigid", shards={"quick": 2, "thorough": 4})
 def s_fix_rigid(ctx):
     ctx.given("C19.fix_rigid", fix_rigid_case(), n={"quick": 2500, "thorough": 80000})
 
@@ -1071,13 +1071,13 @@ def _align_edge():
         yield {"kind": "pi_minus_tiny", "a": [0.0, 0.0, 1.0], "b": [math.sin(t), 0.0, -math.cos(t)]}
 
 
-@subcheck("C19", "align", shards={"quick": 1, "thorough": 4})
+@subcheck("C19", "align", shards={"quick": 2, "thorough": 4})
 def s_align(ctx):
     ctx.enumerate("C19.align", _align_edge(), label="align_vectors_10x10_directions_and_tiny_angles")
     ctx.given("C19.align", align_case(), n={"quick": 3000, "thorough": 100000})
 
 
-@subcheck("C19", "plane", shards={"quick": 1, "thorough": 4})
+@subcheck("C19", "plane", shards={"quick": 2, "thorough": 4})
 def s_plane(ctx):
     ctx.given("C19.plane", plane_case(), n={"quick": 2500, "thorough": 80000})
 
